@@ -51,6 +51,7 @@ type Obj struct {
 	ID     int
 	Glob   bool // created by a package initialiser
 	Parent *Obj
+	Sparse map[int]*Obj // element storage of very large arrays (Kids stays nil)
 	// lock-set monitor
 	Guard string
 }
@@ -295,7 +296,11 @@ func (w *Worker) newObj(t types.Type) *Obj {
 		o.Kids = make([]*Obj, o.N)
 	case *types.Array:
 		o.N = int(u.Len())
-		o.Kids = make([]*Obj, o.N)
+		if o.N > sparseArrayThreshold {
+			o.Sparse = map[int]*Obj{}
+		} else {
+			o.Kids = make([]*Obj, o.N)
+		}
 	default:
 		o.Leaf = true
 		o.V = w.zero(t)
@@ -318,12 +323,23 @@ func (o *Obj) elemType(i int) types.Type {
 	panic("elemType of leaf")
 }
 
+const sparseArrayThreshold = 1 << 20
+
 func (w *Worker) kid(o *Obj, i int) *Obj {
 	if o.Leaf {
 		panic(fmt.Sprintf("kid of leaf object of type %s", o.Typ))
 	}
 	if i < 0 || i >= o.N {
 		panic(fmt.Sprintf("kid index %d out of range %d", i, o.N))
+	}
+	if o.Sparse != nil {
+		k := o.Sparse[i]
+		if k == nil {
+			k = w.newObj(o.elemType(i))
+			k.Guard, k.Glob, k.Parent = o.Guard, o.Glob, o
+			o.Sparse[i] = k
+		}
+		return k
 	}
 	k := o.Kids[i]
 	if k == nil {
